@@ -466,6 +466,8 @@ InitFrom(r) == /\ ins = r.ins /\ outs = r.outs /\ sink = r.sink /\ source = r.so
 
 Legal(t) == \A k \in DOMAIN InvNames : InvHolds(t, InvNames[k])
 
+ObsLegal(e) == e.obs.ph_bad = <<>>
+
 RECURSIVE FirstInvFail(_, _)
 FirstInvFail(t, k) == IF k > Len(InvNames) THEN "ok"
                       ELSE IF ~InvHolds(t, InvNames[k]) THEN "inv." \o InvNames[k]
